@@ -171,7 +171,7 @@ OneWriter ==
 Proj(e) == [status |-> e.status, hdrs |-> e.hdrs, body |-> e.body]
 Visible == [status |-> under[1].status, hdrs |-> under[1].hdrs, body |-> under[1].body]
 
-Cfg0 == [maxConns |-> 1, maxBytes |-> 0]
+Cfg0 == [maxConns |-> 1, maxBytes |-> 0, timeout |-> TRUE]
 InTimeSet == {Proj(e) : e \in SG!Expected(SG!Tagged(SG!Req(0, steps, term), N + 1, "none"), Cfg0, FALSE)}
 TimeoutSet == {Proj(e) : e \in SG!Expected(SG!Tagged(SG!Req(0, steps, term), 0, ctx), Cfg0, FALSE)}
 
